@@ -174,3 +174,8 @@ Definition reconstruct_okb (F : list nat) (st : store) (q : pfactors) (entries :
   forallb (fun e => compatibleb q (snd e)) entries &&
   pairwiseb (fun a b => agree2 (snd a) (snd b) && negb (fst a =? fst b)) entries &&
   list_eqb f (expected_factors F q entries).
+
+(* ---------------- FilterMap: abstract store of (key, item) pairs in emplace order -------------
+   a query returns exactly the items whose key is compatible with it, in emplace order *)
+Definition fm_spec {A} (entries : list (pfactors * A)) (q : pfactors) : list A :=
+  map snd (List.filter (fun e => compatibleb q (fst e)) entries).
